@@ -566,4 +566,7 @@ def run(ctx) -> Report:
         "leaf terminals are interpreted by their values on the affine cell (ReferenceGrad(x)=J, CellOrigin=v0, reference volumes 1/d!, ...)",
         "non-affine cells: only the guards are checked (quantities are left to the form compiler)",
     ]
+    from ..memokey import memo_rule
+
+    memo_rule(ctx, rep, "C07-key", ['ufl.algorithms.apply_geometry_lowering'])
     return rep
